@@ -16,7 +16,7 @@ import json;m=json.load(open('$d/meta.json'));print(' '.join(m.get('checks',['$n
   if ! git -C /repo apply --check $PWD/$d/patch.diff 2>/dev/null; then echo "| $n | - | patch does not apply to the current tree | |" >> $tmp; continue; fi
   git -C /repo apply $PWD/$d/patch.diff
   for p in $props; do
-    out=$(./check $p quick 2>&1); rc=$?
+    out=$(SPOKVC_SELFTEST=1 ./check $p quick 2>&1); rc=$?
     v=$(echo "$out" | grep -c '^VIOLATION')
     first=$(echo "$out" | grep -m1 '^VIOLATION' | sed 's/.*replay=[^ ]*\/\([^ \/]*\)\.json.*/\1/')
     nf=$(echo "$out" | grep '^VIOLATION' | grep -vc 'no-failing-input-found')
